@@ -12,7 +12,8 @@ use poulpy_core::layouts::{
     Base2K, Degree, Dnum, Dsize, GGLWE, GGLWELayout, GGSW, GGSWLayout, GLWE, GLWEAutomorphismKey, GLWEAutomorphismKeyLayout, GLWELayout, GLWEPlaintext, GLWEPublicKey, GLWESwitchingKey,
     GLWESwitchingKeyLayout, GLWETensor, GLWETensorKey, GLWETensorKeyLayout, LWE, LWELayout, Rank, TorusPrecision,
 };
-use poulpy_hal::api::{ScratchAvailable, ScratchFromBytes};
+use poulpy_core::layouts::{GGLWEPreparedFactory, GGSWPreparedFactory, GLWEInfos, GLWEPreparedFactory, LWEInfos};
+use poulpy_hal::api::{ScratchAvailable, ScratchFromBytes, SvpPPolBytesOf};
 use poulpy_hal::layouts::{ReaderFrom, Scratch, WriterTo, ZnxInfos};
 use proptest::prelude::*;
 use pzv_be::{Be, FullBackend, with_backend};
@@ -36,10 +37,26 @@ pub struct Case {
     pub seed: u64,
 }
 
-pub const KINDS: [&str; 12] = ["take_lwe", "take_glwe", "take_glwe_slice", "take_glwe_tensor", "take_glwe_plaintext", "take_gglwe", "take_ggsw", "take_ggsw_slice", "take_glwe_public_key", "take_glwe_switching_key", "take_glwe_automorphism_key", "take_glwe_tensor_key"];
+pub const KINDS: [&str; 24] = ["take_lwe", "take_glwe", "take_glwe_slice", "take_glwe_tensor", "take_glwe_plaintext", "take_gglwe", "take_ggsw", "take_ggsw_slice", "take_glwe_public_key", "take_glwe_switching_key", "take_glwe_automorphism_key", "take_glwe_tensor_key", "take_gglwe_prepared", "take_ggsw_prepared", "take_ggsw_prepared_slice", "take_glwe_prepared", "take_glwe_public_key_prepared", "take_glwe_secret", "take_glwe_secret_tensor", "take_glwe_secret_prepared", "take_lwe_plaintext", "take_glwe_switching_key_prepared", "take_glwe_automorphism_key_prepared", "take_glwe_tensor_key_prepared"];
 
 fn align(x: usize) -> usize {
     x.next_multiple_of(64)
+}
+
+fn mat_shape<A: poulpy_core::layouts::GGLWEInfos>(x: &A) -> Vec<usize> {
+    vec![x.n().0 as usize, x.base2k().0 as usize, x.size(), x.rank_in().0 as usize, x.rank_out().0 as usize, x.dnum().0 as usize, x.dsize().0 as usize]
+}
+
+fn ggsw_shape<A: poulpy_core::layouts::GGSWInfos>(x: &A) -> Vec<usize> {
+    vec![x.n().0 as usize, x.base2k().0 as usize, x.size(), x.rank().0 as usize, x.dnum().0 as usize, x.dsize().0 as usize]
+}
+
+fn glwe_shape<A: poulpy_core::layouts::GLWEInfos>(x: &A) -> Vec<usize> {
+    vec![x.n().0 as usize, x.base2k().0 as usize, x.size(), x.rank().0 as usize]
+}
+
+fn same(got: Vec<usize>, want: Vec<usize>) -> Result<(), String> {
+    if got == want { Ok(()) } else { Err(format!("the taken object reports the layout {got:?}, the request is {want:?}")) }
 }
 
 fn roundtrip<T: ReaderFrom + WriterTo, O: WriterTo>(taken: &mut T, owned: &O) -> Result<(), String> {
@@ -54,7 +71,7 @@ fn roundtrip<T: ReaderFrom + WriterTo, O: WriterTo>(taken: &mut T, owned: &O) ->
     Ok(())
 }
 
-fn run<B: FullBackend>(_m: &poulpy_hal::layouts::Module<B>, c: &Case) -> Verdict
+fn run<B: FullBackend>(m: &poulpy_hal::layouts::Module<B>, c: &Case) -> Verdict
 where
     Scratch<B>: ScratchFromBytes<B> + ScratchTakeCore<B> + ScratchAvailable + poulpy_hal::api::TakeSlice,
 {
@@ -65,7 +82,8 @@ where
     let size = c.size.clamp(1, 6) as usize;
     // matrix layouts need ceil(k / base2k) > dsize and dnum * dsize <= ceil(k / base2k) (asserted by their constructors)
     let (dsize0, dnum0) = (c.dsize.clamp(1, 3) as usize, c.dnum.clamp(1, 3) as usize);
-    let size = if (c.kind as usize % KINDS.len()) >= 5 && (c.kind as usize % KINDS.len()) != 8 { size.max(dnum0 * dsize0).max(dsize0 + 1) } else { size };
+    let kk_ = c.kind as usize % KINDS.len();
+    let size = if matches!(kk_, 5 | 6 | 7 | 9 | 10 | 11 | 12 | 13 | 14 | 21 | 22 | 23) { size.max(dnum0 * dsize0).max(dsize0 + 1) } else { size };
     let k = size * b - (c.krem as usize % b);
     let (ri, ro) = (c.rank_in.clamp(1, 3) as u32, c.rank_out.clamp(0, 3) as u32);
     let dsize = c.dsize.clamp(1, 3) as u32;
@@ -87,9 +105,22 @@ where
         6 => align(GGSW::<Vec<u8>>::bytes_of_from_infos(&ggsw)),
         7 => count * align(GGSW::<Vec<u8>>::bytes_of_from_infos(&ggsw)),
         10 => align(GGLWE::<Vec<u8>>::bytes_of_from_infos(&GGLWELayout { rank_in: Rank(ro1), ..gglwe })),
-        _ => {
+        11 => {
             let pairs = ((ro1 + 1) * ro1) >> 1;
             align(GGLWE::<Vec<u8>>::bytes_of_from_infos(&GGLWELayout { rank_in: Rank(pairs.max(1)), ..gglwe }))
+        }
+        12 | 21 => align(m.gglwe_prepared_bytes_of_from_infos(&gglwe)),
+        13 => align(m.ggsw_prepared_bytes_of_from_infos(&ggsw)),
+        14 => count * align(m.ggsw_prepared_bytes_of_from_infos(&ggsw)),
+        15 | 16 => align(m.glwe_prepared_bytes_of_from_infos(&glwe)),
+        17 => align(poulpy_hal::layouts::ScalarZnx::<Vec<u8>>::bytes_of(n, ro as usize)),
+        18 => align(poulpy_hal::layouts::ScalarZnx::<Vec<u8>>::bytes_of(n, (((ro1 + 1) * ro1) >> 1).max(1) as usize)),
+        19 => align(m.bytes_of_svp_ppol(ro as usize)),
+        20 => align(poulpy_hal::layouts::VecZnx::<Vec<u8>>::bytes_of(1, 1, size)),
+        22 => align(m.gglwe_prepared_bytes_of_from_infos(&GGLWELayout { rank_in: Rank(ro1), ..gglwe })),
+        _ => {
+            let pairs = ((ro1 + 1) * ro1) >> 1;
+            align(m.gglwe_prepared_bytes_of_from_infos(&GGLWELayout { rank_in: Rank(pairs.max(1)), ..gglwe }))
         }
     };
     // the take happens after a generated number of bytes was already taken (alignment of the cursor) and leaves a generated remainder
@@ -179,13 +210,83 @@ where
                 roundtrip(&mut t, &GLWEAutomorphismKey::alloc_from_infos(&lay))?;
                 rest.available()
             }
-            _ => {
+            11 => {
                 let lay = GLWETensorKeyLayout { n: nd, base2k: bb, k: kk, rank: Rank(ro1), dnum: Dnum(dnum), dsize: Dsize(dsize) };
                 // documented precondition of the take: infos with rank_in == rank_out (the rank of the key), not the tensor-key
                 // layout itself (whose rank_in() is the number of pairs)
                 let req = GGLWELayout { rank_in: Rank(ro1), ..gglwe };
                 let (mut t, rest) = s1.take_glwe_tensor_key::<_, poulpy_hal::layouts::Module<B>>(&req);
                 roundtrip(&mut t, &GLWETensorKey::alloc_from_infos(&lay))?;
+                rest.available()
+            }
+            12 => {
+                let (t, rest) = s1.take_gglwe_prepared(m, &gglwe);
+                same(mat_shape(&t), mat_shape(&gglwe))?;
+                rest.available()
+            }
+            13 => {
+                let (t, rest) = s1.take_ggsw_prepared(m, &ggsw);
+                same(ggsw_shape(&t), ggsw_shape(&ggsw))?;
+                rest.available()
+            }
+            14 => {
+                let (ts, rest) = s1.take_ggsw_prepared_slice(m, count, &ggsw);
+                if ts.len() != count {
+                    return Err(format!("{} objects instead of {count}", ts.len()));
+                }
+                for t in ts.iter() {
+                    same(ggsw_shape(t), ggsw_shape(&ggsw))?;
+                }
+                rest.available()
+            }
+            15 => {
+                let (t, rest) = s1.take_glwe_prepared(m, &glwe);
+                same(glwe_shape(&t), glwe_shape(&glwe))?;
+                rest.available()
+            }
+            16 => {
+                let (t, rest) = s1.take_glwe_public_key_prepared(m, &glwe);
+                same(glwe_shape(&t), glwe_shape(&glwe))?;
+                rest.available()
+            }
+            17 => {
+                let (t, rest) = s1.take_glwe_secret(nd, Rank(ro));
+                same(vec![t.n().0 as usize, t.rank().0 as usize], vec![n, ro as usize])?;
+                rest.available()
+            }
+            18 => {
+                let (t, rest) = s1.take_glwe_secret_tensor(nd, Rank(ro1));
+                same(vec![t.n().0 as usize, t.rank().0 as usize], vec![n, ro1 as usize])?;
+                rest.available()
+            }
+            19 => {
+                let (t, rest) = s1.take_glwe_secret_prepared(m, Rank(ro));
+                same(vec![t.n().0 as usize, t.rank().0 as usize], vec![n, ro as usize])?;
+                rest.available()
+            }
+            20 => {
+                let lay = LWELayout { n: nd, k: kk, base2k: bb };
+                let (t, rest) = s1.take_lwe_plaintext(&lay);
+                same(vec![t.base2k().0 as usize, t.size()], vec![b, size])?;
+                rest.available()
+            }
+            21 => {
+                let lay = GLWESwitchingKeyLayout { n: nd, base2k: bb, k: kk, rank_in: Rank(ri), rank_out: Rank(ro1), dnum: Dnum(dnum), dsize: Dsize(dsize) };
+                let (t, rest) = s1.take_glwe_switching_key_prepared(m, &lay);
+                same(mat_shape(&t), mat_shape(&lay))?;
+                rest.available()
+            }
+            22 => {
+                let lay = GLWEAutomorphismKeyLayout { n: nd, base2k: bb, k: kk, rank: Rank(ro1), dnum: Dnum(dnum), dsize: Dsize(dsize) };
+                let (t, rest) = s1.take_glwe_automorphism_key_prepared(m, &lay);
+                same(mat_shape(&t), mat_shape(&lay))?;
+                rest.available()
+            }
+            _ => {
+                let lay = GLWETensorKeyLayout { n: nd, base2k: bb, k: kk, rank: Rank(ro1), dnum: Dnum(dnum), dsize: Dsize(dsize) };
+                let req = GGLWELayout { rank_in: Rank(ro1), ..gglwe };
+                let (t, rest) = s1.take_glwe_tensor_key_prepared(m, &req);
+                same(mat_shape(&t), mat_shape(&lay))?;
                 rest.available()
             }
         };
@@ -234,4 +335,4 @@ pub fn replay(ctx: &Ctx, sub: &str, case: &serde_json::Value) -> i32 {
     ctx.replay_case::<Case, _>(sub, case, test)
 }
 
-pub const RULE: &str = "core takes (sub-check core_take_layouts): cases = (backend, one of 12 ScratchTakeCore forms: LWE, GLWE, GLWE slice, GLWE tensor, GLWE plaintext, GGLWE, GGSW, GGSW slice, public key, switching key, automorphism key, tensor key; N 2..128, radix 2..40, 1..6 limbs, ranks 0..3, dnum / dsize 1..3, 1..4 objects, a generated number of bytes taken before). The window holds exactly the aligned bytes_of_from_infos of the request (plus the bytes taken before and 0..128 spare bytes). Oracle: no panic; the taken object reads and re-writes the stream of an owned object of the requested layout byte for byte (tensor / plaintext: equal public shape); consumption == aligned bytes_of_from_infos; guard regions intact. non-trivial = every case.";
+pub const RULE: &str = "core takes (sub-check core_take_layouts): cases = (backend, one of 24 ScratchTakeCore forms: LWE, GLWE, GLWE slice, GLWE tensor, GLWE / LWE plaintext, GGLWE, GGSW, GGSW slice, public key, switching / automorphism / tensor key, secrets (plain, tensor, prepared) and the prepared forms of GLWE, public key, GGLWE, GGSW (+ slice), switching / automorphism / tensor key; N 2..128, radix 2..40, 1..6 limbs, ranks 0..3, dnum / dsize 1..3, 1..4 objects, a generated number of bytes taken before). The window holds exactly the aligned bytes_of_from_infos of the request (plus the bytes taken before and 0..128 spare bytes). Oracle: no panic; the taken object reads and re-writes the stream of an owned object of the requested layout byte for byte (types without a stream format: equal reported layout / public shape); consumption == aligned bytes_of_from_infos; guard regions intact. non-trivial = every case.";
